@@ -23,6 +23,11 @@ type entryRes struct {
 	Pt  string `json:"pt"`
 	Err bool   `json:"err"` // the entry point rejected (returned an error / marked the transaction failed / returned nothing)
 	Pan string `json:"pan"`
+	// When the entry point was handed an OUTER message built around the case (a signed consensus message, a staking
+	// message, a log-data record) followed by junk: the outer type and the whole outer input, so that the monitor judges
+	// what the entry point accepted on the whole input.  Empty otherwise (the outer bytes are then the real encoder's).
+	Oty string `json:"oty"`
+	Ob  []int  `json:"ob"`
 }
 
 // world holds the real objects behind the entry points.
@@ -75,8 +80,16 @@ func newWorld() *world {
 	return w
 }
 
+// junk is appended to outer messages: a valid message followed by bytes that are not part of it.
+var junk = []byte{0x00}
+
+func withJunk(r entryRes, oty string, outer []byte) entryRes {
+	r.Oty, r.Ob = oty, ints(outer)
+	return r
+}
+
 func guard(pt string, f func() bool) (res entryRes) {
-	res.Pt = pt
+	res.Pt, res.Ob = pt, []int{}
 	defer func() {
 		if r := recover(); r != nil {
 			res.Pan = fmt.Sprint(r)
@@ -137,33 +150,61 @@ var stakingActions = map[string]staking.ActionType{
 	"TxDelegationSettle": staking.DelegationSettle,
 }
 
-// entries drives every synchronous entry point that decodes bytes of this type.
-func (w *world) entries(ty string, b []byte) []entryRes {
+// entries drives every synchronous entry point that decodes bytes of this type.  When the case itself is a value of the
+// type (acc), the entry points that take an outer message are also handed that message FOLLOWED BY JUNK: what they accept
+// is judged on the whole input.
+func (w *world) entries(ty string, b []byte, acc bool) []entryRes {
 	out := []entryRes{}
+	cons := func(pt, code string) {
+		outer := w.wrapped(code, b)
+		out = append(out, w.handleMsg(pt, outer))
+		if acc {
+			oj := append(append([]byte{}, outer...), junk...)
+			out = append(out, withJunk(w.handleMsg(pt+"+junk", oj), "UconMessage", oj))
+		}
+	}
+	stk := func(pt string, a staking.ActionType) {
+		outer := w.stakingWrapped(a, b)
+		out = append(out, w.applyStaking(pt, outer))
+		if acc {
+			oj := append(append([]byte{}, outer...), junk...)
+			out = append(out, withJunk(w.applyStaking(pt+"+junk", oj), "StakingMessage", oj))
+		}
+	}
+	logd := func(pt, topic string) {
+		outer := (staking.LogData{Topic: topic, Data: b}).EncodeToBytes()
+		out = append(out, w.logData(pt, outer))
+		if acc {
+			oj := append(append([]byte{}, outer...), junk...)
+			out = append(out, withJunk(w.logData(pt+"+junk", oj), "LogData", oj))
+		}
+	}
 	switch ty {
 	case "UconMessage":
+		// the decode helper of the consensus wire format, and the handler built on it
+		out = append(out, guard("ucon.Decode", func() bool { _, err := ucon.Decode(b); return err != nil }))
 		out = append(out, w.handleMsg("HandleMsg", b))
 	case "ConsensusCommon":
-		out = append(out, w.handleMsg("HandleMsg:priority", w.wrapped(ucon.MsgNamePriority, b)))
+		cons("HandleMsg:priority", ucon.MsgNamePriority)
 	case "Block":
-		out = append(out, w.handleMsg("HandleMsg:block", w.wrapped(ucon.MsgNameBlock, b)))
+		cons("HandleMsg:block", ucon.MsgNameBlock)
 	case "BlockHashWithVotes":
 		for _, c := range []string{ucon.MsgNamePrevote, ucon.MsgNamePrecommit, ucon.MsgNameNext, ucon.MsgNameCert} {
-			out = append(out, w.handleMsg("HandleMsg:"+c, w.wrapped(c, b)))
+			cons("HandleMsg:"+c, c)
 		}
 	case "StakingMessage":
 		out = append(out, w.applyStaking("ApplyMessage", b))
 	case "TxDelegation":
-		out = append(out, w.applyStaking("ApplyMessage:DelegationAdd", w.stakingWrapped(staking.DelegationAdd, b)))
-		out = append(out, w.applyStaking("ApplyMessage:DelegationSub", w.stakingWrapped(staking.DelegationSub, b)))
+		stk("ApplyMessage:DelegationAdd", staking.DelegationAdd)
+		stk("ApplyMessage:DelegationSub", staking.DelegationSub)
 	case "LogData":
 		out = append(out, w.logData("DecodeLogData", b))
 	case "Validator":
-		out = append(out, w.logData("DecodeLogData:create", (staking.LogData{Topic: staking.LogTopicCreate, Data: b}).EncodeToBytes()))
+		logd("DecodeLogData:create", staking.LogTopicCreate)
 	case "WithdrawRecord":
-		out = append(out, w.logData("DecodeLogData:withdraw", (staking.LogData{Topic: staking.LogTopicWithdraw, Data: b}).EncodeToBytes()))
+		logd("DecodeLogData:withdraw", staking.LogTopicWithdraw)
 	case "SlashData":
-		out = append(out, w.logData("DecodeLogData:slashing", (staking.LogData{Topic: staking.LogTopicSlashing, Data: b}).EncodeToBytes()))
+		logd("DecodeLogData:slashing", staking.LogTopicSlashing)
 	case "BlockConsensusData":
 		out = append(out, guard("ExtractConsensusData", func() bool {
 			_, err := ucon.ExtractConsensusData(&types.Header{Consensus: b})
@@ -191,7 +232,7 @@ func (w *world) entries(ty string, b []byte) []entryRes {
 		}))
 	default:
 		if a, ok := stakingActions[ty]; ok {
-			out = append(out, w.applyStaking("ApplyMessage:"+ty, w.stakingWrapped(a, b)))
+			stk("ApplyMessage:"+ty, a)
 		}
 	}
 	return out
